@@ -1,11 +1,15 @@
-(* C06 - Control objects give a consistent view inside every callback. Theorems only. The plan's structural invariant is a parameter PI with plan_inv_ok P cfg PI in the statements taken from Proofs/CycleProofs.v / Proofs/PlanStep.v; the last theorem of this file shows the concrete invariant PIc (the plan refines a bounded task list whose tasks name states, Proofs/PlanProofs.v, Proofs/MachinePlan.v) satisfies it. *)
+(* C06 - Control objects give a consistent view inside every callback. Theorems only. The plan's structural invariant
+   is a parameter PI with plan_inv_ok P cfg PI in the statements taken from Proofs/CycleProofs.v / Proofs/PlanStep.v;
+   the last theorem of this file shows the concrete invariant PIc (the plan refines a bounded task list whose tasks
+   name states, Proofs/PlanProofs.v, Proofs/MachinePlan.v) satisfies it. *)
 From Coq Require Import List Arith Bool NArith.
 From FFSM2 Require Import Model.TaskList Model.BitArray Model.BitStream Model.Plan Model.Ancestors Model.Machine
   Proofs.BitArrayProofs Proofs.MachineFrame Proofs.MachinePlan Proofs.MachineLife Proofs.GuardProofs Proofs.CycleProofs Proofs.PlanStep
-  Proofs.SerialProofs Proofs.LogProofs Proofs.MachineTop.
+  Proofs.SerialProofs Proofs.LogProofs Proofs.MachineTop Model.Multi Generated.InitFacts Proofs.ConstructProofs Proofs.LifeMonitor Proofs.ActivationRounds Proofs.IndexSafety Proofs.FeatureProofs.
 Import ListNotations.
 
-(* every callback of a delivery to w sees stateId() = id_of w (255 for the root), isActive(k) = (k = active) for every k, and the control's current/pending transition and kind *)
+(* every callback of a delivery to w sees stateId() = id_of w (255 for the root), isActive(k) = (k = active) for every
+   k, and the control's current/pending transition and kind *)
 Theorem C06_view_of_a_delivery :
   forall (P : Type) (cfg : config) (orc : oracle P) (PI : plan_data P -> Prop),
          plan_inv_ok P cfg PI ->
@@ -20,7 +24,8 @@ Theorem C06_view_of_a_delivery :
 Proof. exact (view_spec). Qed.
 Print Assumptions C06_view_of_a_delivery.
 
-(* the view is built from the core at the moment of the callback: request() is the outstanding request, isActive(k) compares with registry.active for every control flavour *)
+(* the view is built from the core at the moment of the callback: request() is the outstanding request, isActive(k)
+   compares with registry.active for every control flavour *)
 Theorem C06_view_fields :
   forall (P : Type) (cfg : config) (origin : nat) (k : ctl P) (c : core P),
          let v := mk_view P cfg origin k c in
@@ -32,7 +37,8 @@ Theorem C06_view_fields :
 Proof. exact (mk_view_fields). Qed.
 Print Assumptions C06_view_fields.
 
-(* control.isActive(k) inside a callback equals what the instance itself reports for every k (including 0 and inactive ids), for guard, plan, full and const controls *)
+(* control.isActive(k) inside a callback equals what the instance itself reports for every k (including 0 and inactive
+   ids), for guard, plan, full and const controls *)
 Theorem C06_control_agrees_with_instance :
   forall (P : Type) (cfg : config) (origin : nat) (k : ctl P) (c : core P),
          v_act P (mk_view P cfg origin k c) = o_act P (observe P cfg c).
